@@ -17,7 +17,7 @@ RULE = ("toffoli_gate and t_inverse: full unitary (register entangled with refer
         "negative and > 2pi; parity_meas for ALL Pauli strings over I,X,Y,Z of length 1..3 with and without leading "
         "minus on computational-basis, stabiliser and random input states, BOTH outcome branches of the measurement "
         "explored with the backend's probabilities (exact distribution), returned value and post-measurement state "
-        "compared with the projector semantics."
+        "compared with the projector semantics; every string also once on qubits whose virtual ids differ from their list positions (a bystander first, reversed list, a freed first qubit)."
         ' Sessions: 2-3 applications come and go on one long-lived controller (closing while holding qubits, ids handed out again) and use toffoli_gate / parity_meas over Z,I strings / set_qubit_state(0|pi) / t_inverse on computational-basis registers; returned values and the reduced state of each application are compared with the classical prediction after every flush. '
         "Non-trivial = every case; distinct = distinct case description.")
 ASSUMPTIONS = ["outcome 0 of a parity measurement denotes eigenvalue +1 of the (signed) Pauli string",
